@@ -7,6 +7,7 @@ import (
 	"go/format"
 	"go/parser"
 	"go/token"
+	"golang.org/x/tools/go/ssa"
 	"os"
 	"path/filepath"
 	"sort"
@@ -19,6 +20,8 @@ import (
 // every non-test source file of the repository; each mutant that still type-checks is analysed with all rules
 // (in-memory overlay). The output lists which mutants are reported and which survive. Surviving mutants are
 // candidates for triage: equivalent, irrelevant to every property, or a blind spot.
+
+var sweepMu sync.Mutex
 
 type sweepMutant struct {
 	File string
@@ -226,6 +229,11 @@ func runSweep(repo string, only string, workers int) int {
 		go func(i int, m sweepMutant) {
 			defer wg.Done()
 			defer func() { <-sem }()
+			// the rule engines keep per-program caches in package-level maps: one program at a time
+			sweepMu.Lock()
+			defer sweepMu.Unlock()
+			loopCache = map[*ssa.Function]bool{}
+			provCache = map[string]*prov{}
 			c, err := Load(repo, modPath, map[string][]byte{filepath.Join(repo, m.File): m.Src}, nil)
 			if err != nil {
 				results[i] = res{i, "does-not-compile", nil}
